@@ -59,6 +59,8 @@ def arg_descs(contract, fork_tag, model, hints=None):
             out[name] = {"kind": "text"}
         elif tag == "new":
             out[name] = {"kind": "new"}
+        elif tag and tag.startswith("classobj"):
+            out[name] = {"kind": "classobj"}
         elif tag and tag.startswith("strs:"):
             k = int(tag.split(":")[1])
             out[name] = {"kind": "list", "value": [_smt_str(model.get(f"{name}{i}"), "s") for i in range(k)]}
